@@ -411,7 +411,7 @@ func hostilePhases(which string) []*fw.Phase {
 	}
 	twice := &fw.Phase{
 		Name: "same-destination-unpacked-into-twice", Chroot: true, Exhaustive: true,
-		N: func(string) int { return len(second) * nv * 2 * 2 },
+		N: func(string) int { return len(second) * nv * 2 * 2 * 2 },
 		Run: func(env *fw.Env, idx int) fw.Result {
 			k := idx
 			pick := func(n int) int { v := k % n; k /= n; return v }
@@ -419,6 +419,7 @@ func hostilePhases(which string) []*fw.Phase {
 			b := arenaVariants[pick(nv)]
 			samePacker := pick(2) == 0
 			withAllow := pick(2) == 0
+			recreated := pick(2) == 1 // dst is removed and made anew between the two calls
 			if withAllow {
 				b.Allow = []string{"../shared"}
 			}
@@ -444,6 +445,14 @@ func hostilePhases(which string) []*fw.Phase {
 			if !samePacker {
 				p = mk()
 			}
+			if recreated {
+				// nothing the first call saw in dst is true any more: what
+				// was a real directory then may be a link now
+				fixTreePerms(b.Dst())
+				os.RemoveAll(b.Dst())
+				os.MkdirAll(b.Dst(), 0755)
+				e2 = append([]gen.TarEntry{{Name: "d/e", Type: "dir", Mode: 0755}, {Name: "d/e/l", Type: "link", Link: "../..", Mode: 0777}, {Name: "q", Type: "link", Link: "d/e/l/..", Mode: 0777}, {Name: "q/b/pwned.txt", Type: "file", Mode: 0644, Body: "PWNED"}, {Name: "xd", Type: "link", Link: "d/e/l/../sib", Mode: 0777}}, e2...)
+			}
 			hc := hostileCase{Arena: b, Entries: e2}
 			data, err := gen.BuildTarGz(e2, "")
 			if err != nil {
@@ -467,6 +476,9 @@ func hostilePhases(which string) []*fw.Phase {
 			n := 1 + idx%4
 			tail := (idx / 4) % 3
 			b := arenaVariants[(idx/12)%nv]
+			// things in the working directory ("/") that are called like the
+			// archive's links: removing a refused link must act inside dst
+			defer func() { os.Remove("/e0"); os.Remove("/e1"); os.Remove("/e2") }()
 			es := []gen.TarEntry{{Name: "q/b", Type: "dir", Mode: 0755}, {Name: "q/b/top", Type: "link", Link: "../..", Mode: 0777}}
 			// (the second and fourth pass through the same link twice, which is not a loop)
 			targets := []string{"q/b/top/../secret", "q/b/top/q/b/top/../sib/keep", "q/b/top/../ro-file", "q/b/top/q/b/top/q/b/top/../sib"}
@@ -479,7 +491,17 @@ func hostilePhases(which string) []*fw.Phase {
 			case 2:
 				es = append(es, gen.TarEntry{Name: "pipe", Type: "fifo", Mode: 0644})
 			}
-			return runHostile(which, hostileCase{Arena: b, Entries: es})
+			hc := hostileCase{Arena: b, Entries: es}
+			buildArena(b)
+			os.Chdir("/")
+			mustWrite("/e0", "OUTSIDE-cwd-e0", 0600)
+			os.Symlink("etc/passwd", "/e1")
+			os.Mkdir("/e2", 0750)
+			data, err := gen.BuildTarGz(es, "")
+			if err != nil {
+				return fw.Result{Class: "unbuildable-archive"}
+			}
+			return judgeHostile(which, hc, runUnpack(b, data, nil))
 		},
 	}
 	return []*fw.Phase{singles, pairs, triples, coopTriples, coopRandom, random, links, distilled, reused, twice, several, faults}
